@@ -319,6 +319,8 @@ class PDFStream(PDFObject):
 
         resolved_filters = [resolve1(f) for f in filters]
         resolved_params = [resolve1(param) for param in params]
+        # a filter without parameters has null (or nothing) in its place
+        resolved_params = [p if isinstance(p, dict) else {} for p in resolved_params]
         return list(zip(resolved_filters, resolved_params))
 
     def decode(self) -> None:
